@@ -107,7 +107,7 @@ func checkC19(c *Ctx) {
 		hasStatus := false
 		for _, f := range p.Methods(t) {
 			for _, ss := range p.Stores([]*ssa.Function{f}) {
-				if ss.Field == "status" && ss.Owner == t.Obj().Name() {
+				if ss.Field == "status" && ss.Owner == canonTypeName(t.Obj()) {
 					hasStatus = true
 				}
 			}
@@ -146,7 +146,7 @@ func checkC19(c *Ctx) {
 				c.Bad("R1", "autoplay-reaches:"+m, p.InstrPos(ci), "the automatic play of the player runner can reach Actions."+m+": it would volunteer chips", reach.PathTo(p, g)...)
 				continue
 			}
-			if g.Name() == "UpdateTableState" || strings.HasPrefix(FuncName(g), FuncName(entry)) || namedOf(recvTypeOf(g)) == namedOf(recvTypeOf(entry)) {
+			if fnName(g) == "UpdateTableState" || strings.HasPrefix(FuncName(g), FuncName(entry)) || namedOf(recvTypeOf(g)) == namedOf(recvTypeOf(entry)) {
 				sites = append(sites, site{ci, m})
 			}
 		}
@@ -175,7 +175,7 @@ func checkC19(c *Ctx) {
 		f := s.ci.Parent()
 		gs := p.Guards(s.ci)
 		where := p.InstrPos(s.ci)
-		key := f.Name() + ":" + s.m
+		key := fnName(f) + ":" + s.m
 		switch s.m {
 		case "Pass":
 			c.Check(hasActionGuard(gs, true, nil, "pass"), "R2", key, where, "pass only when pass is allowed", "pass is played without the hand allowing it")
